@@ -279,7 +279,7 @@ class Model:
 
 
 def load_known_findings(prop: str):
-    path = os.path.join(VERIF, "known_findings.json")
+    path = os.path.join(VERIF, "known_findings", f"{prop}.json")
     try:
         data = json.load(open(path))
     except FileNotFoundError:
